@@ -25,6 +25,8 @@ from .types import (
 )
 
 MAX_DEPTH = 12
+# platform constants (POSIX; the Windows branches are not taken -- stated assumption)
+EXTERN_CONSTS = {"os.name": "posix", "os.sep": "/", "posixpath.sep": "/", "os.path.sep": "/"}
 
 
 class ExternMethod:
@@ -153,7 +155,11 @@ class CallMixin:
                 raise Unsupported(f"{obj.name}.{name}")
             return self.wrap_def(r)
         if isinstance(obj, Extern):
-            return Extern(obj.dotted + "." + name)
+            dotted = obj.dotted + "." + name
+            if dotted in EXTERN_CONSTS:
+                self.res.assumed_used.add(f"const {dotted} = {EXTERN_CONSTS[dotted]!r}")
+                return EXTERN_CONSTS[dotted]
+            return Extern(dotted)
         if isinstance(obj, SuperProxy):
             selfv = obj.selfv
             cdef = self.repo.lookup(selfv.ty.qualname) if isinstance(selfv, SV) else selfv.cdef
